@@ -112,5 +112,18 @@ CHECKS["C15"] = {
             "executed and judged; an injected write error must surface as a failed run.",
     "note": _LIFE_NOTE + " Torn offsets are seeded within each cut class; the abstract cut class is what the projection observes, not what was requested.",
 }
+CHECKS["C18"] = {
+    "engine": "tlc-spec", "category": "model_checking", "design_ref": "6/C18, 3 (Hierarchy.tla)",
+    "technique": "TLA+ OpenOK (dangling / cycle / alias collision) enumerated exhaustively by TLC over issuer functions x layouts; every directory "
+                 "materialised and opened by the real code; observations trace-validated by TLC",
+    "text": "All issuer functions on up to 4 (quick) / 5 (thorough) entities into entities + {none, ghost} under eight alias and directory layouts "
+            "(implicit, explicit, mixed, explicit clash, alias = another file's base name, same base name in two directories with and without a "
+            "disambiguating alias, dotted base names) are initial states of MCHierarchy.tla; TLC checks that refusal has exactly the three causes. "
+            "Each directory is built with nested directories, the three suffixes in mixed case and nine decoys; the real Open must fail iff the "
+            "specification says so, write and change nothing on refusal, and otherwise a generate-all run must plan exactly the aliases, issuers "
+            "first, and write exactly <config stem>.pem for every config.",
+    "note": "trusted: TLC + Json; simulated filesystem; artifact paths are matched against dir/base.pem rendered by the driver. n<=6 of the property is "
+            "reduced to n<=5 (8.4 M issuer functions at n=6 are not enumerated); CLI exit status is covered by the CLI slice of C10",
+}
 for e in ENGINES:
     e["serves_properties"] = sorted(CHECKS)
